@@ -1,11 +1,11 @@
-package main
+package hlib
 
 import "math/rand"
 
 // Generators for byte strings (bytesgen). All randomness comes from c.rng.
 
 // enumStrings calls f on every string over alphabet of length <= maxLen.
-func enumStrings(alphabet []byte, maxLen int, f func(s string)) {
+func EnumStrings(alphabet []byte, maxLen int, f func(s string)) {
 	buf := make([]byte, 0, maxLen)
 	var rec func()
 	rec = func() {
@@ -23,7 +23,7 @@ func enumStrings(alphabet []byte, maxLen int, f func(s string)) {
 }
 
 // escapeDict are bytes and sequences relevant to some escaper or decoder.
-var escapeDict = []string{
+var EscapeDict = []string{
 	"<", ">", "&", "\"", "'", "\\", "/", "=", "`", " ", "\t", "\n", "\r", "\f", "\x00", "\x0b", "\x7f",
 	"(", ")", "+", ":", ";", "{", "}", "%", "#", "?", "a", "b", "c", "f", "g", "A", "B", "F", "G", "0", "9", "x", "u", "n",
 	" ", " ", "é", "ό", "\xc3", "\xa9", "\xff", "\xf0\x9f\x98\x80", "\xed\xa0\x80", "\xc0\x80",
@@ -31,7 +31,7 @@ var escapeDict = []string{
 	"*", "_", "[", "]", "!", "|", "~", "-", ".", "1.", "    ", "  ",
 }
 
-func randString(r *rand.Rand, maxParts int) string {
+func RandString(r *rand.Rand, maxParts int) string {
 	n := r.Intn(maxParts + 1)
 	var b []byte
 	for i := 0; i < n; i++ {
@@ -43,15 +43,15 @@ func randString(r *rand.Rand, maxParts int) string {
 		case 2:
 			b = append(b, []byte(string(rune(r.Intn(0x3000))))...)
 		default:
-			b = append(b, escapeDict[r.Intn(len(escapeDict))]...)
+			b = append(b, EscapeDict[r.Intn(len(EscapeDict))]...)
 		}
 	}
 	return string(b)
 }
 
 // allASCIISuccessors calls f on d+c for every dictionary entry d and every byte c.
-func dictTimesSuccessors(f func(s string)) {
-	for _, d := range escapeDict {
+func DictTimesSuccessors(f func(s string)) {
+	for _, d := range EscapeDict {
 		f(d)
 		for c := 0; c < 256; c++ {
 			f(d + string([]byte{byte(c)}))
